@@ -19,6 +19,11 @@ step machine over the `Arc` strong count.
                                  local is dropped at the end of the arm; the thread's `kept` list remembers the handle
                                  (live = it came from the recorder, inert = `Counter::noop()`).  Writing through kept
                                  handles (`k.use`) and dropping them (`k.drop`) touches no field of the pair.
+  deeper re-entrancy:            `emitDeep d`: the recorder's own emission re-enters the recorder, which emits again … `d` levels
+                                 (the thread holds up to d + 1 references); `emitDropInside`: the recorder drops the
+                                 RecoveryHandle from inside a forwarded call (count ≥ 2 → ≥ 1: finalisation waits for the
+                                 return of that call); `emitIntoInside`: the recorder calls `into_inner` from inside a
+                                 forwarded call — the count is ≥ 2 for as long as it tries: it never returns
   install:                       build, `set_global_recorder(wrapper)`; cell taken → wrapper dropped (weak only),
                                  `handle.into_inner()` with no emitter, recorder handed back in the error
 
@@ -36,6 +41,10 @@ inductive Call
   | emitKeep           -- a register_* through the wrapper whose returned handle the caller keeps
   | useKept            -- the caller writes through every handle it kept
   | dropKept           -- the caller drops every handle it kept
+  | emitDeep (d : Nat) -- an emission during which the wrapped recorder emits again through the wrapper, `d` levels deep
+                       -- (the recorder's own emission re-enters the recorder, which emits again, …: depth `d + 1`)
+  | emitDropInside     -- an emission during which the wrapped recorder, inside the forwarded call, drops the RecoveryHandle
+  | emitIntoInside     -- an emission during which the wrapped recorder, inside the forwarded call, calls `into_inner`
   deriving Repr, DecidableEq
 
 inductive Res
@@ -56,6 +65,10 @@ inductive PC
   | nInside            -- inside the recorder twice (outer and re-entrant call)
   | use                -- about to write through the kept handles
   | kdrop              -- about to drop the kept handles
+  | dUp (k : Nat)      -- `emitDeep`: inside the recorder `k` times, about to upgrade once more (re-entrant call number `k`)
+  | dIn (k : Nat)      -- `emitDeep`: inside the recorder `k` times (k ≥ 2), the innermost call about to return
+  | iHdrop             -- inside the recorder (once), about to drop the RecoveryHandle from there
+  | iTry               -- inside the recorder (once), at the head of `into_inner`'s retry loop
   deriving Repr, DecidableEq
 
 structure Thread where
@@ -85,6 +98,9 @@ def pcOfCall : Call → PC
   | .emitKeep => .upgrade
   | .useKept => .use
   | .dropKept => .kdrop
+  | .emitDeep _ => .upgrade
+  | .emitDropInside => .upgrade
+  | .emitIntoInside => .upgrade
 
 def Thread.advance (t : Thread) (r : Res) : Thread :=
   let rest := t.calls.tail
@@ -134,6 +150,35 @@ def useStep (s : Sys) (t : Thread) : Sys × Thread :=
 def kdropStep (s : Sys) (t : Thread) : Sys × Thread :=
   (s, { (t.advance (.keptDropped t.kept.length)) with kept := [] })
 
+/-- `emitDeep d`, the thread is inside the recorder `k` times (k ≥ 1) and the recorder emits once more through
+    the wrapper: `Weak::upgrade` — it cannot fail in a reachable state (the thread itself holds `k` references) —
+    then either one more level follows (`k < d`) or the innermost call is reached -/
+def deepUpStep (s : Sys) (t : Thread) (k d : Nat) : Sys × Thread :=
+  if k = 0 then (s, t) else
+  if s.strong > 0 then (enter s, { t with pc := if k + 1 > d then .dIn (k + 1) else .dUp (k + 1) })
+  else (s, { t with pc := (if k = 1 then .inside else .dIn k), results := t.results ++ [.nestedIgnored] })
+
+/-- `emitDeep`: the innermost of `k ≥ 2` calls of the thread returns to the one around it and drops its reference -/
+def deepLeaveStep (s : Sys) (t : Thread) (k : Nat) : Sys × Thread :=
+  if k < 2 then (s, t) else
+  (release { s with inside := s.inside - 1 },
+   { t with pc := (if k = 2 then .inside else .dIn (k - 1)), results := t.results ++ [.nestedDelivered] })
+
+/-- `drop(handle)` issued by the wrapped recorder from inside a forwarded call: the handle's reference goes, the
+    one of the call stays (so this is never the last one in a reachable state); what is left of the call is the
+    return of an ordinary emission -/
+def dropInsideStep (s : Sys) (t : Thread) (rest : List Call) : Sys × Thread :=
+  let t' : Thread := { t with pc := .inside, calls := .emit :: rest, results := t.results ++ [.dropped] }
+  if s.handle then (release { s with handle := false }, t') else (s, t')
+
+/-- one `Arc::try_unwrap` attempt of an `into_inner` called by the wrapped recorder from inside a forwarded call;
+    the success arm is there for totality only (theorem `into_inner_from_inside_never_returns`) -/
+def intoInsideStep (s : Sys) (t : Thread) (rest : List Call) : Sys × Thread :=
+  if s.handle && s.strong = 1 then
+    ({ s with strong := 0, handle := false, recovered := true, unwrapBusy := s.unwrapBusy || decide (s.inside > 0) },
+     { t with pc := .inside, calls := .emit :: rest, results := t.results ++ [.recovered] })
+  else (s, t)                                     -- retry
+
 def stepThread (s : Sys) (t : Thread) : Sys × Thread :=
   match t.pc, t.calls with
   | .start, [] => (s, { t with pc := .done })
@@ -160,6 +205,14 @@ def stepThread (s : Sys) (t : Thread) : Sys × Thread :=
   | .inside, .emitKeep :: _ => keepLeaveStep s t
   | .use, .useKept :: _ => useStep s t
   | .kdrop, .dropKept :: _ => kdropStep s t
+  | .upgrade, .emitDeep d :: _ => upgradeStep s t (if d = 0 then .inside else .dUp 1)
+  | .inside, .emitDeep _ :: _ => leaveStep s t .delivered
+  | .dUp k, .emitDeep d :: _ => deepUpStep s t k d
+  | .dIn k, .emitDeep _ :: _ => deepLeaveStep s t k
+  | .upgrade, .emitDropInside :: _ => upgradeStep s t .iHdrop
+  | .iHdrop, .emitDropInside :: rest => dropInsideStep s t rest
+  | .upgrade, .emitIntoInside :: _ => upgradeStep s t .iTry
+  | .iTry, .emitIntoInside :: rest => intoInsideStep s t rest
   | _, _ => (s, t)
 
 def step (s : Sys) (tid : Nat) : Sys :=
@@ -176,6 +229,23 @@ def PC.label : PC → String
   | .tryUnwrap => "spin0:recover.try_unwrap" | .hdrop => "h.drop" | .done => "done"
   | .nUpgrade => "weak.upgrade" | .nInside => "rec.inside"
   | .use => "k.use" | .kdrop => "k.drop"
+  | .dUp _ => "weak.upgrade" | .dIn _ => "rec.inside"
+  | .iHdrop => "h.drop" | .iTry => "spin0:recover.try_unwrap"
+
+/-! ### what every complete schedule ends with (theorem `C20.complete_outcome`) -/
+
+/-- calls that consume the handle through `into_inner` (an `into_inner` from inside a forwarded call never returns:
+    no complete schedule has executed one) / that drop it -/
+def isII : Call → Bool
+  | .intoInner => true | _ => false
+def isDH : Call → Bool
+  | .dropHandle => true | .emitDropInside => true | _ => false
+def iiTotal (progs : List (List Call)) : Nat := (progs.map (fun p => (p.filter isII).length)).sum
+def dhTotal (progs : List (List Call)) : Nat := (progs.map (fun p => (p.filter isDH).length)).sum
+
+/-- (finalised, recovered) once every thread has run its program to the end — whatever the schedule was -/
+def completeOutcome (progs : List (List Call)) : Nat × Bool :=
+  if iiTotal progs > 0 then (0, true) else if dhTotal progs > 0 then (1, false) else (0, false)
 
 /-! ### `RecoverableRecorder::install` against the process-wide recorder cell
 
